@@ -755,6 +755,12 @@ func (fr *frame) enterLoop(l *loop, st *State) *State {
 		fx.enc.Assume(Ge(nb, fx.brkOf(st)))
 		ns.Brk = nb
 	}
+	// whatever a loop-modified local refers to at the loop head has been allocated by then
+	for _, a := range cells {
+		if v, ok := ns.Cells[a]; ok {
+			fx.assumeBelowBrk(v, ns)
+		}
+	}
 	ev2 := fr.env(ns, fr.entry, l)
 	for _, c := range invs {
 		if !fr.clauseActive(c) {
